@@ -19,7 +19,7 @@ TRUSTED = ['textwrap.TextWrapper()._split_chunks enters byteTextWrap/wrap_w as a
            'str.isdigit/int table regenerated from CPython (coq/gen/T12.v)',
            'utf8 encoder coq/C12/Model.v:utf8 compared with str.encode on every generated string']
 ASSUMPTIONS = ['world.testing/log.testing off; Python asserts enabled',
-               'reply text has no CR/LF/NUL (safeArgument would repr() it) and no lone surrogates at the live level',
+               'no lone surrogates at the live level; repr() of a text with CR/LF/NUL is CPython\'s, given to the model as an input',
                'reply() is modelled for a final, non-nested reply without action/notice/private/to keywords; flood protection off',
                'model-side non-termination (size smaller than one character) is represented by Raise OtherError and compared with an '
                'interrupted implementation call']
@@ -39,8 +39,7 @@ LEVEL_NOTE = ('Trusted: Coq kernel, gen_tables.py, extraction + OCaml driver, th
               'Modelled, not verified / not modelled (gap audit): irc.error() replies are never split (finding F46, scenario only); the pending chunks are '
               'keyed by user@host on one network-wide class attribute, so users sharing a user@host -- or the same user@host on two networks -- share them '
               '(F47, scenario only; the model has one owner and one peer with distinct user@host); a change of the bot\'s own visible host (CHGHOST, 396) '
-              'is not followed by irc.prefix (F48; C12_prefix_tracks assumes user and host fixed); ircutils.safeArgument on texts with CR/LF/NUL (repr() '
-              'of the text) is outside the generators; action replies and noLengthCheck=True are not split by design and not modelled; nested replies, '
+              'is not followed by irc.prefix (F48; C12_prefix_tracks assumes user and host fixed); action replies and noLengthCheck=True are not split by design and not modelled; nested replies, '
               'irc.replies(), outFilter callbacks of plugins, the +draft/reply tag (message-tags) and reply.mores.length below 4 + reserve + formatting '
               'overhead (byteTextWrap then never returns: compared at unit level only) are outside the live model; the translated words are inputs '
               '(the four shipped locales are exercised through supybot.i18n\'s own .po parser, not through supybot.language, because a source tree '
@@ -153,7 +152,14 @@ def gen_text(rng, kind, nwords, maxword):
 
 # --------------------------------------------------------------------------
 # class predicates of the known findings (computed from the input only)
+def safe_text(t):
+    """what the reply is once it is a valid IRC argument: the text itself, or repr() of it (CR, LF, NUL)"""
+    return t if not any(c in t for c in '\r\n\x00') else repr(t)
+
+
 def _text(inp):
+    if inp.get('op') == 'live':
+        return safe_text(inp['s'])      # reply() splits the safe text
     return inp.get('s', inp.get('text', ''))
 
 
@@ -165,7 +171,7 @@ def junction(inp):
     if inp.get('op') == 'live':
         allowed = live_allowed(inp)
         set_language(inp.get('lang'))
-        text, length = inp['s'][:max(0, allowed * inp['maximum'])], allowed - more_reserve()
+        text, length = _text(inp)[:max(0, allowed * inp['maximum'])], allowed - more_reserve()
     else:
         text, length = inp['text'], inp['size']
     full = _text(inp)
@@ -502,8 +508,8 @@ def live_wire(inp, public, times):
            bool(inp.get('kwTo')) and bot()['irc'].isChannel(inp['kwTo']), inp.get('kwNotice', False),
            inp.get('confWithNotice', False)] + list(more_words())
     if 'ops' in inp:
-        return [8, [cfg, inp['s'], inp['number'], ['ANB'.index(o) for o in inp['_ops']]]]
-    return [5, [cfg, inp['s'], inp['number'], times]]
+        return [8, [cfg, inp['s'], inp['number'], ['ANB'.index(o) for o in inp['_ops']], repr(inp['s'])]]
+    return [5, [cfg, inp['s'], inp['number'], times, repr(inp['s'])]]
 
 
 class _Suffix(object):
@@ -527,6 +533,7 @@ def live_oracle(ctx, inp, public, rounds, ircutils):
     if inp['length'] and inp['length'] > live_allowed(dict(inp, length=0)):
         return      # a configured chunk length larger than what a line can carry: the administrator's choice
     msgs = [m for r in rounds for m in r]
+    text = safe_text(inp['s'])      # the reply as sent: the text, or repr() of it when it is not a valid IRC argument
     if msgs and ERR in msgs[0] and ERR not in inp['s']:
         ctx.fail(inp, 'the reply was lost: %r' % msgs[0][:120])
         return
@@ -553,7 +560,7 @@ def live_oracle(ctx, inp, public, rounds, ircutils):
         remaining = len(msgs) - 1 - i
         sm = SUFFIX.search(p)
         if remaining == 0:
-            if sm and not SUFFIX.search(inp['s']):
+            if sm and not SUFFIX.search(text):
                 ctx.fail(inp, 'last message announces %s more' % sm.group(1))
         else:
             if not sm or int(sm.group(1)) != remaining or sm.group(2) != more_words()[remaining != 1]:
@@ -561,7 +568,7 @@ def live_oracle(ctx, inp, public, rounds, ircutils):
                 return
             p = p[:sm.start()]
         texts.append(p)
-    want = ircutils.stripFormatting(munge(inp['s'])).strip('\x01')
+    want = ircutils.stripFormatting(munge(text)).strip('\x01')
     got = [ircutils.stripFormatting(t) for t in texts]
     g, w = dews(''.join(got)), dews(want)
     if len(msgs) >= inp['maximum']:     # the configured maximum number of chunks was reached: truncation allowed
@@ -571,7 +578,7 @@ def live_oracle(ctx, inp, public, rounds, ircutils):
     if not ok:
         k = next((j for j in range(min(len(g), len(w))) if g[j] != w[j]), min(len(g), len(w)))
         ctx.fail(inp, 'visible text differs at %d: got ..%r, want ..%r (%d vs %d chars, %d msgs)' % (k, g[max(0, k - 10):k + 15], w[max(0, k - 10):k + 15], len(g), len(w), len(msgs)))
-    elif len(msgs) > 1 and any(t.strip() and t.strip() not in ircutils.stripFormatting(munge(inp['s'])) for t in got):
+    elif len(msgs) > 1 and any(t.strip() and t.strip() not in ircutils.stripFormatting(munge(text)) for t in got):
         ctx.fail(inp, 'a chunk is not a verbatim piece of the reply')
 
 
@@ -638,6 +645,11 @@ def gen_live(rng, kind):
     if kind == 'keywords':
         tk = rng.choice(['plain', 'plain', 'mb'])
         nchunks = rng.choice([2, 3, 4])
+    if kind == 'unsafe':
+        # texts that are not valid IRC arguments (NUL, CR, LF): reply() sends repr() of them, which is longer
+        inp.update(mores=True, length=0)
+        tk = rng.choice(['plain', 'mb', 'fmt', 'hostile'])
+        nchunks = rng.choice([1, 1, 2, 3, 4])
     if kind == 'locale':
         # an installed bot speaking French / Finnish / German / Italian: translated '(N more messages)'
         inp.update(lang=rng.choice(LOCALES), mores=True, length=0)
@@ -672,6 +684,10 @@ def gen_live(rng, kind):
     s = sep.join(words)
     if tk == 'ws':
         s = re.sub(' ', lambda m: rng.choice([' ', ' ', '  ', '\t', '   ']), s)
+    if kind == 'unsafe':
+        for _ in range(rng.choice([1, 2, 5, 12])):
+            i = rng.randrange(len(s) + 1)
+            s = s[:i] + rng.choice(['\x00', '\x00', '\x00\x02', '\r', '\n', '\x00\\', "\x00'", '\x00"']) + s[i:]
     inp['s'] = s
     return inp
 
@@ -680,6 +696,9 @@ def gen_live(rng, kind):
 SCENARIOS = [{'op': 'scenario', 'scenario': 'long_error', 's': 'EEEEEEEEEEEEEEEEEEEEEEEEEEEEEEEEEEEEEEEEEEEEEEEEEEEEEEEEEEEEEEEEEEEEEEEEEEEEEEEEEEEEEEEEEEEEEEEEEEEEEEEEEEEEEEEEEEEEEEEEEEEEEEEEEEEEEEEEEEEEEEEEEEEEEEEEEEEEEEEEEEEEEEEEEEEEEEEEEEEEEEEEEEEEEEEEEEEEEEEEEEEEEEEEEEEEEEEEEEEEEEEEEEEEEEEEEEEEEEEEEEEEEEEEEEEEEEEEEEEEEEEEEEEEEEEEEEEEEEEEEEEEEEEEEEEEEEEEEEEEEEEEEEEEEEEEEEEEEEEEEEEEEEEEEEEEEEEEEEEEEEEEEEEEEEEEEEEEEEEEEEEEEEEEEEEEEEEEEEEEEEEEEEEEEEEEEEEEEEEEEEEEEEEEEEEEEEEEEEEEEEEEEEEEEEEEEEEEEEEEEEEEEEEEEEEEEEEEEEEEEEEEEEEEEEEEEEEEEEEEEEEEEEEEEEEEEEEEEEEEEEEEEEEEEEEEEEEEEEEEEEEEEEEEEEEEEEEEEEEEEEEEEEEEEEEEEEEEEEEEEEEEEEEEEEEEEEEEEEEEEEEEEEEEEEEEEEEEEEEEEEEEEEEEEEEEEEEEEEEEEEEEEEEEEEEEEEEEEEEEEEEEEEEEEEEEEEEEEEEEEEEEEEEEEEEEEEEEEEEEEEEEEEEEEEEEEEEEEEEEEEEEEEEEEEEEEEEEEEEEEEEEEEEEEEEEEEEEEEEEEEEEEEEEEEEEEEEEEEEEEEEEEEEEEEEEEEEEEEEEEEEEEEEEEEEEEEEEEEEEEEEEEEEEEEEEEEEEEEEEEEEEEEEEEEEEEEEEEEEEEEEEEEEEEEEEEEEEEEEEEEEEEEEEEEEEEEEEEEEEEEEEEEEEEEEEEEEEEEEE'}, {'op': 'scenario', 'scenario': 'shared_userhost', 's': 'AAAAAAAAAAAAAAAAAAAAAAAAAAAAAAAAAAAAAAAAAAAAAAAAAAAAAAAAAAAAAAAAAAAAAAAAAAAAAAAAAAAAAAAAAAAAAAAAAAAAAAAAAAAAAAAAAAAAAAAAAAAAAAAAAAAAAAAAAAAAAAAAAAAAAAAAAAAAAAAAAAAAAAAAAAAAAAAAAAAAAAAAAAAAAAAAAAAAAAAAAAAAAAAAAAAAAAAAAAAAAAAAAAAAAAAAAAAAAAAAAAAAAAAAAAAAAAAAAAAAAAAAAAAAAAAAAAAAAAAAAAAAAAAAAAAAAAAAAAAAAAAAAAAAAAAAAAAAAAAAAAAAAAAAAAAAAAAAAAAAAAAAAAAAAAAAAAAAAAAAAAAAAAAAAAAAAAAAAAAAAAAAAAAAAAAAAAAAAAAAAAAAAAAAAAAAAAAAAAAAAAAAAAAAAAAAAAAAAAAAAAAAAAAAAAAAAAAAAAAAAAAAAAAAAAAAAAAAAAAAAAAAAAAAAAAAAAAAAAAAAAAAAAAAAAAAAAAAAAAAAAAAAAAAAAAAAAAAAAAAAAAAAAAAAAAAAAAAAAAAAAAAAAAAAAAAAAAAAAAAAAAAAAAAAAAAAAAAAAAAAAAAAAAAAAAAAAAAAAAAAAAAAAAAAAAAAAAAAAAAAAAAAAAAAAAAAAAAAAAAAAAAAAAAAAAAAAAAAAAAAAAAAAAAAAAAAAAAAAAAAAAAAAAAAAAAAAAAAAAAAAAAAAAAAAAAAAAAAAAAAAAAAAAAAAAAAAAAAAAAAAAAAAAAAAAAAAAAAAAAAAAAAAAAAAAAAAAAAAAAAAAAAAAAAAAAAAAAAAAAAAAAAAAAAAAAAAAAAAAAAAAAAAAAAAAAAAAAAAAAAAAAAAAAAAAAAAAAAAAAAAAAAAAAAAAAAAAAAAAAAAAAAAAAAAAAAAAAAAAAAAAAAAAAAAAAAAAAAAAAAAAAAAAAAAAAAAAAAAAAAAAAAAAAAAAAAAAAAAAAAAAAAAAAAAAAAAAAAAAAAAAAAAAAAAAAAAAAAAAAAAAAAAAAAAAAAAAAAAAAAAAAAAAAAAAAAAAAAAAAAAAAAAAAAAAAAAAAAAAAAAAAAAAAAAAAAAAAAAAAAAAAAAAAAAAAAAAAAAAAAAAAAAAAAAAAAAAAAAAAAAAAAAAAAAAAAAAAAAAAAAAAAAAAAAAAAAAAAAAAAAAAAAAAAAAAAAAAAAAA', 'other': 'BBBBBBBBBBBBBBBBBBBBBBBBBBBBBBBBBBBBBBBBBBBBBBBBBBBBBBBBBBBBBBBBBBBBBBBBBBBBBBBBBBBBBBBBBBBBBBBBBBBBBBBBBBBBBBBBBBBBBBBBBBBBBBBBBBBBBBBBBBBBBBBBBBBBBBBBBBBBBBBBBBBBBBBBBBBBBBBBBBBBBBBBBBBBBBBBBBBBBBBBBBBBBBBBBBBBBBBBBBBBBBBBBBBBBBBBBBBBBBBBBBBBBBBBBBBBBBBBBBBBBBBBBBBBBBBBBBBBBBBBBBBBBBBBBBBBBBBBBBBBBBBBBBBBBBBBBBBBBBBBBBBBBBBBBBBBBBBBBBBBBBBBBBBBBBBBBBBBBBBBBBBBBBBBBBBBBBBBBBBBBBBBBBBBBBBBBBBBBBBBBBBBBBBBBBBBBBBBBBBBBBBBBBBBBBBBBBBBBBBBBBBBBBBBBBBBBBBBBBBBBBBBBBBBBBBBBBBBBBBBBBBBBBBBBBBBBBBBBBBBBBBBBBBBBBBBBBBBBBBBBBBBBBBBBBBBBBBBBBBBBBBBBBBBBBBBBBBBBBBBBBBBBBBBBBBBBBBBBBBBBBBBBBBBBBBBBBBBBBBBBBBBBBBBBBBBBBBBBBBBBBBBBBBBBBBBBBBBBBBBBBBBBBBBBBBBBBBBBBBBBBBBBBBBBBBBBBBBBBBBBBBBBBBBBBBBBBBBBBBBBBBBBBBBBBBBBBBBBBBBBBBBBBBBBBBBBBBBBBBBBBBBBBBBBBBBBBBBBBBBBBBBBBBBBBBBBBBBBBBBBBBBBBBBBBBBBBBBBBBBBBBBBBBBBBBBBBBBBBBBBBBBBBBBBBBBBBBBBBBBBBBBBBBBBBBBBBBBBBBBBBBBBBBBBBBBBBBBBBBBBBBBBBBBBBBBBBBBBBBBBBBBBBBBBBBBBBBBBBBBBBBBBBBBBBBBBBBBBBBBBBBBBBBBBBBBBBBBBBBBBBBBBBBBBBBBBBBBBBBBBBBBBBBBBBBBBBBBBBBBBBBBBBBBBBBBBBBBBBBBBBBBBBBBBBBBBBBBBBBBBBBBBBBBBBBBBBBBBBBBBBBBBBBBBBBBBBBBBBBBBBBBBBBBBBBBBBBBBBBBBBBBBBBBBBBBBBBBBBBBBBBBBBBBBBBBBBBBBBBBBBBBBBBBBBBBBBBBBBBBBBBBBBBBBBBBBBBBBBBBBBBBBBBBBBBBBBBBBBBB'}, {'op': 'scenario', 'scenario': 'chghost', 'how': 'chghost', 'host': 'a.very.long.cloak.example.org/bot/limnoria', 's': 'yyyyyyyyyyyyyyyyyyyyyyyyyyyyyyyyyyyyyyyyyyyyyyyyyyyyyyyyyyyyyyyyyyyyyyyyyyyyyyyyyyyyyyyyyyyyyyyyyyyyyyyyyyyyyyyyyyyyyyyyyyyyyyyyyyyyyyyyyyyyyyyyyyyyyyyyyyyyyyyyyyyyyyyyyyyyyyyyyyyyyyyyyyyyyyyyyyyyyyyyyyyyyyyyyyyyyyyyyyyyyyyyyyyyyyyyyyyyyyyyyyyyyyyyyyyyyyyyyyyyyyyyyyyyyyyyyyyyyyyyyyyyyyyyyyyyyyyyyyyyyyyyyyyyyyyyyyyyyyyyyyyyyyyyyyyyyyyyyyyyyyyyyyyyyyyyyyyyyyyyyyyyyyyyyyyyyyyyyyyyyyyyyyyyyyyyyyyyyyyyyyyyyyyyyyyyyyyyyyyyyyyyyyyyyyyyyyyyyyyyyyyyyyyyyyyyyyyyyyyyyyyyyyyyyyyyyyyyyyyyyyyyyyyyyyyyyyyyyyyyyyyyyyyyyyyyyyyyyyyyyyyyyyyyyyyyyyyyyyyyyyyyyyyyyyyyyyyyyyyyyyyyyyyyyyyyyyyyyyyyyyyyyyyyyyyyyyyyyyyyyyyyyyyyyyyyyyyyyyyyyyyyyyyyyyyyyyyyyyyyyyyyyyyyyyyyyyyyyyyyyyyyyyyyyyyyyyyyyyyyyyyyyyyyyyyyyyyyyyyyyyyyyyyyyyyyyyyyyyyyyyyyyyyyyyyyyyyyyyyyyyyyyyyyyyyyyyyyyyyyyyyyyyyyyyyyyyyyyyyyyyyyyyyyyyyyyyyyyyyyyyyyyyyyyyyyyyyyyyyyyyyyyyyyyyyyyyyyyyyyyyyyyyyyyyyyyyyyyyyyyyyyyyyyyyyyyyyyyyyyyyyyyyyyyyyyyyyyyyyyyyyyyyyyyyyyyyyyyyyyyyyyyyyyyyyyyyyyyyyyyyyyyyyyyyyyyyyyyyyyyyyyyyyyyyyyyyyyyyyyyyyyyyyyyyyyyyyyyyyyyyyyyyyyyyyyyyyyyyyyyyyyyyyyyyyyyyyyyyyyyyyyyyyyyyyyyyyyyyyyyyyyyyyyyyyyyyyyyyyyyyyyyyyyyyyyyyyyyyyyyyyyyyyyyyyyyyyyyyyyyyyyyyyyyyyyyyyyyyyyyyyyyyyyyyyyyyyyyyyyyyyyyyyyyyyyyyyyyyyyyyyyyyyyyyyyyyyyyyyy'}, {'op': 'scenario', 'scenario': 'chghost', 'how': '396', 'host': 'a.very.long.cloak.example.org/bot/limnoria', 's': 'yyyyyyyyyyyyyyyyyyyyyyyyyyyyyyyyyyyyyyyyyyyyyyyyyyyyyyyyyyyyyyyyyyyyyyyyyyyyyyyyyyyyyyyyyyyyyyyyyyyyyyyyyyyyyyyyyyyyyyyyyyyyyyyyyyyyyyyyyyyyyyyyyyyyyyyyyyyyyyyyyyyyyyyyyyyyyyyyyyyyyyyyyyyyyyyyyyyyyyyyyyyyyyyyyyyyyyyyyyyyyyyyyyyyyyyyyyyyyyyyyyyyyyyyyyyyyyyyyyyyyyyyyyyyyyyyyyyyyyyyyyyyyyyyyyyyyyyyyyyyyyyyyyyyyyyyyyyyyyyyyyyyyyyyyyyyyyyyyyyyyyyyyyyyyyyyyyyyyyyyyyyyyyyyyyyyyyyyyyyyyyyyyyyyyyyyyyyyyyyyyyyyyyyyyyyyyyyyyyyyyyyyyyyyyyyyyyyyyyyyyyyyyyyyyyyyyyyyyyyyyyyyyyyyyyyyyyyyyyyyyyyyyyyyyyyyyyyyyyyyyyyyyyyyyyyyyyyyyyyyyyyyyyyyyyyyyyyyyyyyyyyyyyyyyyyyyyyyyyyyyyyyyyyyyyyyyyyyyyyyyyyyyyyyyyyyyyyyyyyyyyyyyyyyyyyyyyyyyyyyyyyyyyyyyyyyyyyyyyyyyyyyyyyyyyyyyyyyyyyyyyyyyyyyyyyyyyyyyyyyyyyyyyyyyyyyyyyyyyyyyyyyyyyyyyyyyyyyyyyyyyyyyyyyyyyyyyyyyyyyyyyyyyyyyyyyyyyyyyyyyyyyyyyyyyyyyyyyyyyyyyyyyyyyyyyyyyyyyyyyyyyyyyyyyyyyyyyyyyyyyyyyyyyyyyyyyyyyyyyyyyyyyyyyyyyyyyyyyyyyyyyyyyyyyyyyyyyyyyyyyyyyyyyyyyyyyyyyyyyyyyyyyyyyyyyyyyyyyyyyyyyyyyyyyyyyyyyyyyyyyyyyyyyyyyyyyyyyyyyyyyyyyyyyyyyyyyyyyyyyyyyyyyyyyyyyyyyyyyyyyyyyyyyyyyyyyyyyyyyyyyyyyyyyyyyyyyyyyyyyyyyyyyyyyyyyyyyyyyyyyyyyyyyyyyyyyyyyyyyyyyyyyyyyyyyyyyyyyyyyyyyyyyyyyyyyyyyyyyyyyyyyyyyyyyyyyyyyyyyyyyyyyyyyyyyyyyyyyyyyyyyyyyyyyyyyyyyyyyyyyyyyyyyyyyyyyyyyyyyy'}]
 
 LIVE_CORPUS = [
+    {'op': 'live', 'kind': 'corpus', 'botprefix': 'test!user@host.example', 'nick': 'alice', 'chan': '#chan', 'private': False, 'prefixNick': True, 'noticePriv': True, 'mores': True, 'length': 0, 'maximum': 50, 'instant': 1, 'number': 1, 's': 'lorem\x00\x02ipsum dolor sit amet lorem\x00\x02ipsum dolor sit amet lorem\x00\x02ipsum dolor sit amet lorem\x00\x02ipsum dolor sit amet lorem\x00\x02ipsum dolor sit amet lorem\x00\x02ipsum dolor sit amet lorem\x00\x02ipsum dolor sit amet lorem\x00\x02ipsum dolor sit amet lorem\x00\x02ipsum dolor sit amet lorem\x00\x02ipsum dolor sit amet lorem\x00\x02ipsum dolor sit amet lorem\x00\x02ipsum dolor sit amet lorem\x00\x02ipsum dolor sit amet lorem\x00\x02ipsum dolor sit amet lorem\x00\x02ipsum dolor sit amet lorem\x00\x02ipsum dolor sit amet lorem\x00\x02ipsum dolor sit amet lorem\x00\x02ipsum dolor sit amet lorem\x00\x02ipsum dolor sit amet lorem\x00\x02ipsum dolor sit amet lorem\x00\x02ipsum dolor sit amet lorem\x00\x02ipsum dolor sit amet lorem\x00\x02ipsum dolor sit amet lorem\x00\x02ipsum dolor sit amet lorem\x00\x02ipsum dolor sit amet lorem\x00\x02ipsum dolor sit amet lorem\x00\x02ipsum dolor sit amet lorem\x00\x02ipsum dolor sit amet lorem\x00\x02ipsum dolor sit amet lorem\x00\x02ipsum dolor sit amet lorem\x00\x02ipsum dolor sit amet lorem\x00\x02ipsum dolor sit amet lorem\x00\x02ipsum dolor sit amet lorem\x00\x02ipsum dolor sit amet lorem\x00\x02ipsum dolor sit amet lorem\x00\x02ipsum dolor sit amet lorem\x00\x02ipsum dolor sit amet lorem\x00\x02ipsum dolor sit amet lorem\x00\x02ipsum dolor sit amet lorem\x00\x02ipsum dolor sit amet lorem\x00\x02ipsum dolor sit amet lorem\x00\x02ipsum dolor sit amet lorem\x00\x02ipsum dolor sit amet lorem\x00\x02ipsum dolor sit amet lorem\x00\x02ipsum dolor sit amet lorem\x00\x02ipsum dolor sit amet lorem\x00\x02ipsum dolor sit amet lorem\x00\x02ipsum dolor sit amet lorem\x00\x02ipsum dolor sit amet lorem\x00\x02ipsum dolor sit amet lorem\x00\x02ipsum dolor sit amet lorem\x00\x02ipsum dolor sit amet lorem\x00\x02ipsum dolor sit amet lorem\x00\x02ipsum dolor sit amet lorem\x00\x02ipsum dolor sit amet lorem\x00\x02ipsum dolor sit amet lorem\x00\x02ipsum dolor sit amet lorem\x00\x02ipsum dolor sit amet lorem\x00\x02ipsum dolor sit amet lorem\x00\x02ipsum dolor sit amet'},   # not a valid IRC argument (NUL): repr() must be taken BEFORE measuring and wrapping
+    {'op': 'live', 'kind': 'corpus', 'botprefix': 'test!user@host.example', 'nick': 'alice', 'chan': '#chan', 'private': False, 'prefixNick': True, 'noticePriv': True, 'mores': True, 'length': 0, 'maximum': 50, 'instant': 1, 'number': 1, 's': 'yyyyyyyyyyyyyyyyyyyyyyyyyyyyyyyyyyyyyyyyyyyyyyyyyyyyyyyyyyyyyyyyyyyyyyyyyyyyyyyyyyyyyyyyyyyyyyyyyyyyyyyyyyyyyyyyyyyyyyyyyyyyyyyyyyyyyyyyyyyyyyyyyyyyyyyyyyyyyyyyyyyyyyyyyyyyyyyyyyyyyyyyyyyyyyyyyyyyyyyyyyyyyyyyyyyyyyyyyyyyyyyyyyyyyyyyyyyyyyyyyyyyyyyyyyyyyyyyyyyyyyyyyyyyyyyyyyyyyyyyyyyyyyyyyyyyyyyyyyyyyyyyyyyyyyyyyyyyyyyyyyyyyyyyyyyyyyyyyyyyyyyyyyyyyyyyyyyyyyyyyyyyyyyyyyyyyyyyyyyyyyyyyyyyyyyyyyyyyyyyyyyyyyyyyyyyyyyyyyyyyyyyyyyyyy\x00\x00\x00\x00\x00\x00\x00\x00'},
+    {'op': 'live', 'kind': 'corpus', 'botprefix': 'test!user@host.example', 'nick': 'alice', 'chan': '#chan', 'private': False, 'prefixNick': True, 'noticePriv': True, 'mores': True, 'length': 0, 'maximum': 50, 'instant': 1, 'number': 1, 's': 'a\nb\rc a\nb\rc a\nb\rc a\nb\rc a\nb\rc a\nb\rc a\nb\rc a\nb\rc a\nb\rc a\nb\rc a\nb\rc a\nb\rc a\nb\rc a\nb\rc a\nb\rc a\nb\rc a\nb\rc a\nb\rc a\nb\rc a\nb\rc a\nb\rc a\nb\rc a\nb\rc a\nb\rc a\nb\rc a\nb\rc a\nb\rc a\nb\rc a\nb\rc a\nb\rc a\nb\rc a\nb\rc a\nb\rc a\nb\rc a\nb\rc a\nb\rc a\nb\rc a\nb\rc a\nb\rc a\nb\rc a\nb\rc a\nb\rc a\nb\rc a\nb\rc a\nb\rc a\nb\rc a\nb\rc a\nb\rc a\nb\rc a\nb\rc a\nb\rc a\nb\rc a\nb\rc a\nb\rc a\nb\rc a\nb\rc a\nb\rc a\nb\rc a\nb\rc a\nb\rc a\nb\rc a\nb\rc a\nb\rc a\nb\rc a\nb\rc a\nb\rc a\nb\rc a\nb\rc a\nb\rc a\nb\rc a\nb\rc a\nb\rc a\nb\rc a\nb\rc a\nb\rc a\nb\rc a\nb\rc a\nb\rc a\nb\rc a\nb\rc a\nb\rc a\nb\rc a\nb\rc a\nb\rc a\nb\rc a\nb\rc a\nb\rc a\nb\rc a\nb\rc a\nb\rc a\nb\rc a\nb\rc a\nb\rc a\nb\rc a\nb\rc a\nb\rc a\nb\rc a\nb\rc a\nb\rc a\nb\rc a\nb\rc a\nb\rc a\nb\rc a\nb\rc a\nb\rc a\nb\rc a\nb\rc a\nb\rc a\nb\rc a\nb\rc a\nb\rc a\nb\rc a\nb\rc a\nb\rc a\nb\rc a\nb\rc a\nb\rc a\nb\rc a\nb\rc a\nb\rc a\nb\rc a\nb\rc a\nb\rc a\nb\rc a\nb\rc a\nb\rc a\nb\rc a\nb\rc a\nb\rc a\nb\rc a\nb\rc a\nb\rc a\nb\rc a\nb\rc a\nb\rc a\nb\rc a\nb\rc a\nb\rc a\nb\rc a\nb\rc a\nb\rc a\nb\rc a\nb\rc a\nb\rc a\nb\rc a\nb\rc a\nb\rc a\nb\rc a\nb\rc a\nb\rc a\nb\rc a\nb\rc a\nb\rc a\nb\rc a\nb\rc a\nb\rc a\nb\rc a\nb\rc a\nb\rc a\nb\rc a\nb\rc a\nb\rc a\nb\rc a\nb\rc a\nb\rc a\nb\rc a\nb\rc a\nb\rc a\nb\rc a\nb\rc a\nb\rc a\nb\rc a\nb\rc a\nb\rc a\nb\rc a\nb\rc a\nb\rc a\nb\rc a\nb\rc a\nb\rc a\nb\rc a\nb\rc a\nb\rc a\nb\rc a\nb\rc a\nb\rc a\nb\rc a\nb\rc a\nb\rc a\nb\rc a\nb\rc a\nb\rc a\nb\rc a\nb\rc a\nb\rc a\nb\rc a\nb\rc a\nb\rc a\nb\rc a\nb\rc '},
     {'op': 'live', 'kind': 'corpus', 'botprefix': 'test!user@host.example', 'nick': 'alice', 'chan': '#chan', 'private': False, 'prefixNick': True, 'noticePriv': True, 'mores': True, 'length': 0, 'maximum': 50, 'instant': 1, 'number': 1, 's': 'yyyyyyyyyyyyyyyyyyyyyyyyyyyyyyyyyyyyyyyyyyyyyyyyyyyyyyyyyyyyyyyyyyyyyyyyyyyyyyyyyyyyyyyyyyyyyyyyyyyyyyyyyyyyyyyyyyyyyyyyyyyyyyyyyyyyyyyyyyyyyyyyyyyyyyyyyyyyyyyyyyyyyyyyyyyyyyyyyyyyyyyyyyyyyyyyyyyyyyyyyyyyyyyyyyyyyyyyyyyyyyyyyyyyyyyyyyyyyyyyyyyyyyyyyyyyyyyyyyyyyyyyyyyyyyyyyyyyyyyyyyyyyyyyyyyyyyyyyyyyyyyyyyyyyyyyyyyyyyyyyyyyyyyyyyyyyyyyyyyyyyyyyyyyyyyyyyyyyyyyyyyyyyyyyyyyyyyyyyyyyyyyyyyyyyyyyyyyyyyyyyyyyyyyyyyyyyyyyyyyyyyyyyyyyyyyyyyyyyyyyyyyyyyyyyyyyyyyyyyyyyyyyyyyyyyyyyyyyyyyyyyyyyyyyyyyyyyyyyyyyyyyyyyyyyyyyyyyyyyyyyyyyyyyyyyyyyyyyyyyyyyyyyyyyyyyyyyyyyyyyyyyyyyyyyyyyyyyyyyyyyyyyyyyyyyyyyyyyyyyyyyyyyyyyyyyyyyyyyyyyyyyyyyyyyyyyyyyyyyyyyyyyyyyyyyyyyyyyyyyyyyyyyyyyyyyyyyyyyyyyyyyyyyyyyyyyyyyyyyyyyyyyyyyyyyyyyyyyyyyyyyyyyyyyyyyyyyyyyyyyyyyyyyyyyyyyyyyyyyyyyyyyyyyyyyyyyyyyyyyyyyyyyyyyyyyyyyyyyyyyyyyyyyyyyyyyyyyyyyyyyyyyyyyyyyyyyyyyyyyyyyyyyyyyyyyyyyyyyyyyyyyyyyyyyyyyyyyyyyyyyyyyyyyyyyyyyyyyyyyyyyyyyyyyyyyyyyyyyyyyyyyyyyyyyyyyyyyyyyyyyyyyyyyyyyyyyyyyyyyyyyyyyyyyyyyyyyyyyyyyyyyyyyyyyyyyyyyyyyyyyyyyyyyyyyyyyyyyyyyyyyyyyyyyyyyyyyyyyyyyyyyyyyyyyyyyyyyyyyyyyyyyyyyyyyyyyyyyyyyyyyyyyyyyyyyyyyyyyyyyyyyyyyyyyyyyyyyyyyyyyyyyyyyyyyyyyyyyyyyyyyyyyyyyyyyyyyyyyyyyyyyyyyyyyyyyyyyyyyyyyyyyyyyyyyyyyyyyyyyyyyyyyyyyyyyyyyyyyyyyyyyyyyyyyyyyyyyyyyyyyyyyyyyyyyyyyyyyyyyyyyyyyyyyyyyyyyyyyyyyyyyyyyyyyyyyyyyyyyyyyyyyyyyyyyyyyyyyyyyyyyyyyyyyyyyyyyyyyyyyyyyyyyyyyyyyyyyyyyyyyyyyyyyyyyyyyyyyyyyyyyyyyyyyyyyyyyyyyyyyyyyyyyyyyyyyyyyyyyyyyyyyyyyyyyyyyyyyyyyyyyyyyyyyyyyyyyyyyyyyyyyyyyyyyyyyyyyyyyyyyyyyyyyyyyyyyyyyyyyyyyyyyyyyyyyyyyyyyyyyyyyyyyyyyyyyyyyyyyyyyyyyyyyyyyyyyyyyyyyyyyyyyyyyyyyyyyyyyyyyyyyyyyyyyyyyyyyyyyyyyyyyyyyyyyyyyyyyyyyyyyyyyyyyyyyyyyyyyyyyyyyyyyyyyyyyyyyyyyyyyyyyyyyyyyyyyyyyyyyyyyyyyyyyyyyyyyyyyyyyyyyyyyyyyyyyyyyyyyyyyyyyyyyyyyyyyyyyyyyyyyyyyyyyyyyyyyyyyyyyyyyyyyyyyyyyyyyyyyyyyyyyyyyyyyyyyyyyyyyyyyyyyyyyyyyyyyyyyyyyyyyyyyyyyyyyyyyyyyyyyyyyyyyyyyyyyyyyyyyyyyyyyyyyyyyyyyyyyyyyyyyyyyyyyyyyyyyyyyyyyyyyyyyyyyyyyyyyyyyyyyyyyyyyyyyyyyyyyyyyyyyyyyyyyyyyyyyyyyyyyyyyyyyyyyyyyyyyyyyyyyyyyyyyyyyyyyyyyyyyyyyyyyyyyyyyyyyyyyyyyyyyyyyyyyyyyyyyyyyyyyyyyyyyyyyyyyyyyyyyyyyyyyyyyyyyyyyyyyyyyyyyyyyyyyyyyyyyyyyyyyyyyyyyyyyyyyyyyyyyyyyyyyyyyyyyyyyyyyyyyyyyyyyyyyyyyyyyyyyyyyyyyyyyyyyyyyyyyyyyyyyyyyyyyyyyyyyyyyyyyyyyyyyyyyyyyyyyyyyyyyyyyyyyyyyyyyyyyyyyyyyyyyyyyyyyyyyyyyyyyyyyyyyyyyyyyyyyyyyyyyyyyyyyyyyyyyyyyyyyyyyyyyyyyyyyyyyyyyyyyyyyyyyyyyyyyyyyyyyyyyyyyyyyyyyyyyyyyyyyyyyyyyyyyyyyyyyyyyyyyyyyyyyyyyyyyyyyyyyyyyyyyyyyyyyyyyyyyyyyyyyyyyyyyyyyyyyyyyyyyyyyyyyyyyyyyyyyyyyyyyyyyyyyyyyyyyyyyyyyyyyyyyyyyyyyyyyyyyyyyyyyyyyyyyyyyyyyyyyyyyyyyyyyyyyyyyyyyyyyyyyyyyyyyyyyyyyyyyyyyyyyyyyyyyyyyyyyyyyyyyyyyyyyyyyyyyyyyyyyyyyyyyyyyyyyyyyyyyyyyyyyyyyyyyyyyyyyyyyyyyyyyyyyyyyyyyyyyyyyyyyyyyyyyyyyyyyyyyyyyyyyyyyyyyyyyyyyyyyyyyyyyyyyyyyyyyyyyyyyyyyyyyyyyyyyyyyyyyyyyyyyyyyyyyyyyyyyyyyyyyyyyyyyyyyyyyyyyyyyyyyyyyyyyyyyyyyyyyyyyyyyyyyyyyyyyyyyyyyyyyyyyyyyyyyyyyyyyyyyyyyyyyyyyyyyyyyyyyyyyyyyyyyyyyyyyyyyyyyyyyyyyyyyyyyyyyyyyyyyyyyyyyyyyyyyyyyyyyyyyyyyyyyyyyyyyyyyyyyyyyyyyyyyyyyyyyyyyyyyyyyyyyyyyyyyyyyyyyyyyyyyyyyyyyyyyyyyyyyyyyyyyyyyyyyyyyyyyyyyyyyyyyyyyyyyyyyyyyyyyyyyyyyyyyyyyyyyyyyyyyyyyyyyyyyyyyyyyyyyyyyyyyyyyyyyyyyyyyyyyyyyyyyyyyyyyyyyyyyyyyyyyyyyyyyyyyyyyyyyyyyyyyyyyyyyyyyyyyyyyyyyyyyyyyyyyyyyyyyyyyyyyyyyyyyyyyyyyyyyyyyyyyyyyyyyyyyyyyyyyyyyyyyyyyyyyyyyyyyyyyyyyyyyyyyyyyyyyyyyyyyyyyyyyyyyyyyyyyyyyyyyyyyyyyyyyyyyyyyyyyyyyyyyyyyyyyyyyyyyyyyyyyyyyyyyyyyyyyyyyyyyyyyyyyyyyyyyyyyyyyyyyyyyyyyyyyyyyyyyyyyyyyyyyyyyyyyyyyyyyyyyyyyyyyyyyyyyyyyyyyyyyyyyyyyyyyyyyyyyyyyyyyyyyyyyyyyyyyyyyyyyyyyyyyyyyyyyyyyyyyyyyyyyyyyyyyyyyyyyyyyyyyyyyyyyyyyyyyyyyyyyyyyyyyyyyyyyyyyyyyyyyyyyyyyyyyyyyyyyyyyyyyyyyyyyyyyyyyyyyyyyyyyyyyyyyyyyyyyyyyyyyyyyyyyyyyyyyyyyyyyyyyyyyyyyyyyyyyyyyyyyyyyyyyyyyyyyyyyyyyyyyyyyyyyyyyyyyyyyyyyyyyyyyyyyyyyyyyyyyyyyyyyyyyyyyyyyyyyyyyyyyyyyyyyyyyyyyyyyyyyyyyyyyyyyyyyyyyyyyyyyyyyyyyyyyyyyyyyyyyyyyyyyyyyyyyyyyyyyyyyyyyyyyyyyyyyyyyyyyyyyyyyyyyyyyyyyyyyyyyyyyyyyyyyyyyyyyyyyyyyyyyyyyyyyyyyyyyyyyyyyyyyyyyyyyyyyyyyyyyyyyyyyyyyyyyyyyyyyyyyyyyyyyyyyyyyyyyyyyyyyyyyyyyyyyyyyyyyyyyyyyyyyyyyyyyyyyyyyyyyyyyyyyyyyyyyyyyyyyyyyyyyyyyyyyyyyyyyyyyyyyyyyyyyyyyyyyyyyyyyyyyyyyyyyyyyyyyyyyyyyyyyyyyyyyyyyyyyyyyyyyyyyyyyyyyyyyyyyyyyyyyyyyyyyyyyyyyyyyyyyyyyyyyyyyyyyyyyyyyyyyyyyyyyyyyyyyyyyyyyyyyyyyyyyyyyyyyyyyyyyyyyyyyyyyyyyyyyyyyyyyyyyyyyyyyyyyyyyyyyyyyyyyyyyyyyyyyyyyyyyyyyyyyyyyyyyyyyyyyyyyyyyyyyyyyyyyyyyyyyyyyyyyyyyyyyyyyyyyyyyyyyyyyyyyyyyyyyyyyyyyyyyyyyyyyyyyyyyyyyyyyyyyyyyyyyyyyyyyyyyyyyyyyyyyyyyyyyyyyyyyyyyyyyyyyyyyyyyyyyyyyyyyyyyyyyyyyyyyyyyyyyyyyyyyyyyyyyyyyyyyyyyyyyyyyyyyyyyyyyyyyyyyyyyyyyyyyyyyyyyyyyyyyyyyyyyyyyyyyyyyyyyyyyyyyyyyyyyyyyyyyyyyyyyyyyyyyyyyyyyyyyyyyyyyyyyyyyyyyyyyyyyyyyyyyyyyyyyyyyyyyyyyyyyyyyyyyyyyyyyyyyyyyyyyyyyyyyyyyyyyyyyyyyyyyyyyyyyyyyyyyyyyyyyyyyyyyyyyyyyyyyyyyyyyyyyyyyyyyyyyyyyyyyyyyyyyyyyyyyyyyyyyyyyyyyyyyyyyyyyyyyyyyyyyyyyyyyyyyyyyyyyyyyyyyyyyyyyyyyyyyyyyyyyyyyyyyyyyyyyyyyyyyyyyyyyyyyyyyyyyyyyyyyyyyyyyyyyyyyyyyyyyyyyyyyyyyyyyyyyyyyyyyyyyyyyyyyyyyyyyyyyyyyyyyyyyyyyyyyyyyyyyyyyyyyyyyyyyyyyyyyyyyyyyyyyyyyyyyyyyyyyyyyyyyyyyyyyyyyyyyyyyyyyyyyyyyyyyyyyyyyyyyyyyyyyyyyyyyyyyyyyyyyyyyyyyyyyyyyyyyyyyyyyyyyyyyyyyyyyyyyyyyyyyyyyyyyyyyyyyyyyyyyyyyyyyyyyyyyyyyyyyyyyyyyyyyyyyyyyyyyyyyyyyyyyyyyyyyyyyyyyyyyyyyyyyyyyyyyyyyyyyyyyyyyyyyyyyyyyyyyyyyyyyyyyyyyyyyyyyyyyyyyyyyyyyyyyyyyyyyyyyyyyyyyyyyyyyyyyyyyyyyyyyyyyyyyyyyyyyyyyyyyyyyyyyyyyyyyyyyyyyyyyyyyyyyyyyyyyyyyyyyyyyyyyyyyyyyyyyyyyyyyyyyyyyyyyyyyyyyyyyyyyyyyyyyyyyyyyyyyyyyyyyyyyyyyyyyyyyyyyyyyyyyyyyyyyyyyyyyyyyyyyyyyyyyyyyyyyyyyyyyyyyyyyyyyyyyyyyyyyyyyyyyyyyyyyyyyyyyyyyyyyyyyyyyyyyyyyyyyyyyyyyyyyyyyyyyyyyyyyyyyyyyyyyyyyyyyyyyyyyyyyyyyyyyyyyyyyyyyyyyyyyyyyyyyyyyyyyyyyyyyyyyyyyyyyyyyyyyyyyyyyyyyyyyyyyyyyyyyyyyyyyyyyyyyyyyyyyyyyyyyyyyyyyyyyyyyyyyyyyyyyyyyyyyyyyyyyyyyyyyyyyyyyyyyyyyyyyyyyyyyyyyyyyyyyyyyyyyyyyyyyyyyyyyyyyyyyyyyyyyyyyyyyyyyyyyyyyyyyyyyyyyyyyyyyyyyyyyyyyyyyyyyyyyyyyyyyyyyyyyyyyyyyyyyyyyyyyyyyyyyyyyyyyyyyyyyyyyyyyyyyyyyyyyyyyyyyyyyyyyyyyyyyyyyyyyyyyyyyyyyyyyyyyyyyyyyyyyyyyyyyyyyyyyyyyyyyyyyyyyyyyyyyyyyyyyyyyyyyyyyyyyyyyyyyyyyyyyyyyyyyyyyyyyyyyyyyyyyyyyyyyyyyyyyyyyyyyyyyyyyyyyyyyyyyyyyyyyyyyyyyyyyyyyyyyyyyyyyyyyyyyyyyyyy', 'lang': 'fr'},   # old witnesses of C12.F45 (repaired): French / Finnish '(N more messages)'
     {'op': 'live', 'kind': 'corpus', 'botprefix': 'test!user@host.example', 'nick': 'alice', 'chan': '#chan', 'private': False, 'prefixNick': True, 'noticePriv': True, 'mores': True, 'length': 0, 'maximum': 50, 'instant': 1, 'number': 1, 's': 'yyyyyyyyyyyyyyyyyyyyyyyyyyyyyyyyyyyyyyyyyyyyyyyyyyyyyyyyyyyyyyyyyyyyyyyyyyyyyyyyyyyyyyyyyyyyyyyyyyyyyyyyyyyyyyyyyyyyyyyyyyyyyyyyyyyyyyyyyyyyyyyyyyyyyyyyyyyyyyyyyyyyyyyyyyyyyyyyyyyyyyyyyyyyyyyyyyyyyyyyyyyyyyyyyyyyyyyyyyyyyyyyyyyyyyyyyyyyyyyyyyyyyyyyyyyyyyyyyyyyyyyyyyyyyyyyyyyyyyyyyyyyyyyyyyyyyyyyyyyyyyyyyyyyyyyyyyyyyyyyyyyyyyyyyyyyyyyyyyyyyyyyyyyyyyyyyyyyyyyyyyyyyyyyyyyyyyyyyyyyyyyyyyyyyyyyyyyyyyyyyyyyyyyyyyyyyyyyyyyyyyyyyyyyyyyyyyyyyyyyyyyyyyyyyyyyyyyyyyyyyyyyyyyyyyyyyyyyyyyyyyyyyyyyyyyyyyyyyyyyyyyyyyyyyyyyyyyyyyyyyyyyyyyyyyyyyyyyyyyyyyyyyyyyyyyyyyyyyyyyyyyyyyyyyyyyyyyyyyyyyyyyyyyyyyyyyyyyyyyyyyyyyyyyyyyyyyyyyyyyyyyyyyyyyyyyyyyyyyyyyyyyyyyyyyyyyyyyyyyyyyyyyyyyyyyyyyyyyyyyyyyyyyyyyyyyyyyyyyyyyyyyyyyyyyyyyyyyyyyyyyyyyyyyyyyyyyyyyyyyyyyyyyyyyyyyyyyyyyyyyyyyyyyyyyyyyyyyyyyyyyyyyyyyyyyyyyyyyyyyyyyyyyyyyyyyyyyyyyyyyyyyyyyyyyyyyyyyyyyyyyyyyyyyyyyyyyyyyyyyyyyyyyyyyyyyyyyyyyyyyyyyyyyyyyyyyyyyyyyyyyyyyyyyyyyyyyyyyyyyyyyyyyyyyyyyyyyyyyyyyyyyyyyyyyyyyyyyyyyyyyyyyyyyyyyyyyyyyyyyyyyyyyyyyyyyyyyyyyyyyyyyyyyyyyyyyyyyyyyyyyyyyyyyyyyyyyyyyyyyyyyyyyyyyyyyyyyyyyyyyyyyyyyyyyyyyyyyyyyyyyyyyyyyyyyyyyyyyyyyyyyyyyyyyyyyyyyyyyyyyyyyyyyyyyyyyyyyyyyyyyyyyyyyyyyyyyyyyyyyyyyyyyyyyyyyyyyyyyyyyyyyyyyyyyyyyyyyyyyy', 'lang': 'fi'},
     {'op': 'live', 'kind': 'corpus', 'botprefix': 'LongerBotNick_123456!user@host.example', 'nick': 'alice', 'chan': '#chan', 'private': False, 'prefixNick': True, 'noticePriv': True, 'mores': True, 'length': 0, 'maximum': 50, 'instant': 1, 'number': 1, 's': 'yyyyyyyyyyyyyyyyyyyyyyyyyyyyyyyyyyyyyyyyyyyyyyyyyyyyyyyyyyyyyyyyyyyyyyyyyyyyyyyyyyyyyyyyyyyyyyyyyyyyyyyyyyyyyyyyyyyyyyyyyyyyyyyyyyyyyyyyyyyyyyyyyyyyyyyyyyyyyyyyyyyyyyyyyyyyyyyyyyyyyyyyyyyyyyyyyyyyyyyyyyyyyyyyyyyyyyyyyyyyyyyyyyyyyyyyyyyyyyyyyyyyyyyyyyyyyyyyyyyyyyyyyyyyyyyyyyyyyyyyyyyyyyyyyyyyyyyyyyyyyyyyyyyyyyyyyyyyyyyyyyyyyyyyyyyyyyyyyyyyyyyyyyyyyyyyyyyyyyyyyyyyyyyyyyyyyyyyyyyyyyyyyyyyyyyyyyyyyyyyyyyyyyyyyyyyyyyyyyyyyyyyyyyyyyyyyyyyyyyyyyyyyyyyyyyyyyyyyyyyyyyyyyyyyyyyyyyyyyyyyyyyyyyyyyyyyyyyyyyyyyyyyyyyyyyyyyyyyyyyyyyyyyyyyyyyyyyyyyyyyyyyyyyyyyyyyyyyyyyyyyyyyyyyyyyyyyyyyyyyyyyyyyyyyyyyyyyyyyyyyyyyyyyyyyyyyyyyyyyyyyyyyyyyyyyyyyyyyyyyyyyyyyyyyyyyyyyyyyyyyyyyyyyyyyyyyyyyyyyyyyyyyyyyyyyyyyyyyyyyyyyyyyyyyyyyyyyyyyyyyyyyyyyyyyyyyyyyyyyyyyyyyyyyyyyyyyyyyyyyyyyyyyyyyyyyyyyyyyyyyyyyyyyyyyyyyyyyyyyyyyyyyyyyyyyyyyyyyyyyyyyyyyyyyyyyyyyyyyyyyyyyyyyyyyyyyyyyyyyyyyyyyyyyyyyyyyyyyyyyyyyyyyyyyyyyyyyyyyyyyyyyyyyyyyyyyyyyyyyyyyyyyyyyyyyyyyyyyyyyyyyyyyyyyyyyyyyyyyyyyyyyyyyyyyyyyyyyyyyyyyyyyyyyyyyyyyyyyyyyyyyyyyyyyyyyyyyyyyyyyyyyyyyyyyyyyyyyyyyyyyyyyyyyyyyyyyyyyyyyyyyyyyyyyyyyyyyyyyyyyyyyyyyyyyyyyyyyyyyyyyyyyyyyyyyyyyyyyyyyyyyyyyyyyyyyyyyyyyyyyyyyyyyyyyyyyyyyyyyyyyyyyyyyyyyyyyyyyyyyyyyyyyyyyyyyyyyyyyyyyyyyyyyyyyyyyyyyyyyyyyyyyyyyyyyyyyyyyyyyyyyyyyyyyyyyyyyyyyyyyyyyyyyyyyyyyyyyyyyyyyyyyyyyyyyyyyyyyyyyyyyyyyyyyyyyyyyyyyyyyyyyyyyyyyyyyyyyyyyyyyyyyyyyyyyyyyyyyyyyyyyyyyyyyyyyyyyyyyyyyyyyyyyyyyyyyyyyyyyyyyyyyyyyyyyyyyyyyyyyyyyyyyyyyyyyyyyyyyyyyyyyyyyyyyyyyyyyyyyyyyyyyyyyyyyyyyyyyyyyyyyyyyyyyyyyyyyyyyyy', 'rename': ['b', 'LongerBotNick_123456']},   # the bot is renamed to a longer nick after its own JOIN: chunks must be sized for the new hostmask
@@ -818,7 +837,7 @@ def run(ctx):
     run_unit(ctx, unit_inputs(ctx), ircutils, utils)
     rng = ctx.rng
     plan = (('plain', 120), ('mb', 100), ('ws', 60), ('fmt', 120), ('color0', 40), ('junction', 60), ('hostile', 80), ('many', 20),
-            ('nonascii', 15), ('privnick', 15), ('keywords', 150), ('nickmore', 80), ('rename', 60), ('locale', 40))
+            ('nonascii', 15), ('privnick', 15), ('keywords', 150), ('nickmore', 80), ('rename', 60), ('locale', 40), ('unsafe', 80))
     for kind, base in plan:
         for _ in range(ctx.n(base)):
             check_live(ctx, gen_live(rng, kind), ircutils)
